@@ -1,9 +1,10 @@
 (* C04 -- Acknowledgements mean what the ack policy says. *)
-From LB Require Import Base.Prelude Repl.Acks Repl.AcksProofs.
+From LB Require Import Base.Prelude Repl.Acks Repl.AcksProofs Repl.AcksTerm.
 Open Scope Z_scope.
 
 (* For every sequence of batches (any mix of policies, sizes, expected offsets), follower progress
-   reports, ISR shrinks and expansions, from any state whose commit queue names stored messages
+   reports, ISR shrinks and expansions, and leader terms (another replica leads for a while, this
+   server follows it and then leads again), from any state whose commit queue names stored messages
    (the initial state does), every acknowledgement sent by a step means this, in the state right
    after the step:
      ALL    : the message is stored at the acknowledged offset with that correlation id, the ISR
@@ -20,10 +21,39 @@ Theorem C04_initial_state_ok : forall replicas min_isr cc, QInv (init_state repl
 Proof. exact qinv_init. Qed.
 Print Assumptions C04_initial_state_ok.
 
-(* the offset of a positive acknowledgement keeps naming that message: the log only grows *)
-Theorem C04_log_only_grows : forall xs s s' acks, QInv s -> run s xs = (s', acks) -> exists st, l_log s' = l_log s ++ st.
+(* the offset of a positive acknowledgement keeps naming that message: within a leader term the
+   log only grows *)
+Theorem C04_log_only_grows : forall xs s s' acks, QInv s -> forallb (fun x => negb (is_regain x)) xs = true ->
+  run s xs = (s', acks) -> exists st, l_log s' = l_log s ++ st.
 Proof. exact log_only_grows. Qed.
 Print Assumptions C04_log_only_grows.
+
+(* across a change of leader: the change itself acknowledges nothing and leaves no ack pending, the
+   HW does not go back, and every message at or below the HW stays at its offset when the log was
+   cut back no further than the HW (that it is not is C02's) *)
+Theorem C04_new_term_keeps_committed : forall s keep foreign hw s' out, step s (LRegain keep foreign hw) = (s', out) ->
+  out = [] /\ l_queue s' = [] /\ l_hw s <= l_hw s' /\
+  (l_hw s <= keep -> forall i m, Z.of_nat i <= l_hw s -> nth_error (l_log s) i = Some m -> nth_error (l_log s') i = Some m).
+Proof. exact regain_keeps_committed. Qed.
+Print Assumptions C04_new_term_keeps_committed.
+
+(* "every member of the in-sync set has stored the message" is known to the leader only through
+   what the members report.  Beside the leader's state runs the list of progress reports received
+   in the current leader term (emptied when a new term starts).  For every history, every
+   ALL-policy acknowledgement: each in-sync replica other than the leader has itself reported, in
+   this term, an offset at or beyond the message's.  Nothing remembered from an earlier term counts. *)
+Theorem C04_all_ack_rests_on_reports_of_this_term : forall xs s g, QInv s -> Believes s g -> all_told_ok s g xs.
+Proof. exact every_all_ack_rests_on_this_terms_reports. Qed.
+Print Assumptions C04_all_ack_rests_on_reports_of_this_term.
+
+Theorem C04_initial_state_believes_nothing : forall replicas min_isr cc, Believes (init_state replicas min_isr cc) [].
+Proof. exact believes_init. Qed.
+Print Assumptions C04_initial_state_believes_nothing.
+
+Theorem C04_new_term_forgets_reports : forall s keep foreign hw s' out, step s (LRegain keep foreign hw) = (s', out) ->
+  forall r o, In (r, o) (l_isr s') -> r <> 0%N -> o = -1.
+Proof. exact regain_forgets_reports. Qed.
+Print Assumptions C04_new_term_forgets_reports.
 
 (* a rejected message is not stored: what a publish step appends are messages of the batch that
    are not too large, and a batch refused for its expected offset leaves the log unchanged (with
@@ -52,3 +82,13 @@ Example C04_fast_path :
                         [LPublish [mkMsg 1 PLeader false (-1)]; LPublish [mkMsg 2 PAll false 1]; LPublish [mkMsg 3 PAll false 5]; LPublish [mkMsg 4 PNone false 2]] in
   acks = [mkAck 1 PLeader 0 AOk; mkAck 2 PAll 1 AOk; mkAck 3 PAll 0 AIncorrectOffset] /\ l_hw s = 2 /\ length (l_log s) = 3%nat.
 Proof. vm_compute. repeat split; reflexivity. Qed.
+
+(* two leader terms: replica 2 reported offset 2 in the first term; replica 1 leads and overwrites
+   the tail; in the second term replica 1 alone reports the ALL message at offset 2 -- no ack; it
+   comes when replica 2 reports too *)
+Example C04_two_terms :
+  let xs := [LPublish [mkMsg 1 PNone false (-1)]; LPublish [mkMsg 2 PNone false (-1)]; LPublish [mkMsg 3 PNone false (-1)];
+             LFollower 2 2; LFollower 1 0; LRegain 0 1 0; LPublish [mkMsg 4 PAll false (-1)]; LFollower 1 2] in
+  snd (run (init_state [0; 1; 2]%N 2 false) xs) = [] /\
+  snd (run (init_state [0; 1; 2]%N 2 false) (xs ++ [LFollower 2 2])) = [mkAck 4 PAll 2 AOk].
+Proof. vm_compute. split; reflexivity. Qed.
